@@ -292,3 +292,5 @@ ASSUMPTIONS = [
     "modules hold no hidden mutable state (no Dropout / BatchNorm / RngStream layers are constructed in rl_blox: checked by the C09 effect pass)",
 ]
 NOT_COVERED = ["magnitude of the parameter change"]
+
+REPLAY = {"": "c05_frames"}
